@@ -57,6 +57,10 @@ pub enum Cmd {
     IsReady,
     NewGame,
     Position(PosSpec),
+    /// a position command related to the previous one of the session: same start, and
+    /// 0 = some moves taken back, 1 = continued by the picks, 2 = repeated as it was,
+    /// 3 = the bare start, 4 = the last move replaced by another one
+    PositionRelated(u8, u8, Vec<u16>),
     GoDepth(u8),
     GoMovetime(u16),
     GoBare,
@@ -104,6 +108,7 @@ pub fn session_strategy(max_steps: usize) -> impl Strategy<Value = Session> {
         2 => Just(Cmd::IsReady),
         1 => Just(Cmd::NewGame),
         5 => pos_spec_strategy().prop_map(Cmd::Position),
+        3 => (0u8..5, any::<u8>(), picks(3)).prop_map(|(k, n, p)| Cmd::PositionRelated(k, n, p)),
         5 => (1u8..=4).prop_map(Cmd::GoDepth),
         3 => (0u16..300).prop_map(Cmd::GoMovetime),
         1 => Just(Cmd::GoBare),
@@ -121,6 +126,68 @@ pub fn session_strategy(max_steps: usize) -> impl Strategy<Value = Session> {
         proptest::bool::weighted(0.7),
     )
         .prop_map(|(steps, quit)| Session { steps, quit })
+}
+
+/// A position command derived from the previous one (`prev` = its text): what GUIs really send -
+/// the same game again with one more move, with a move taken back, from the start.
+pub fn related(prev: Option<&str>, kind: u8, n: u8, pk: &[u16]) -> (Pos, String) {
+    let prev = prev.unwrap_or("position startpos");
+    let (head, moves) = match prev.split_once(" moves ") {
+        Some((h, m)) => (h.to_string(), m.split(' ').map(|x| x.to_string()).collect::<Vec<_>>()),
+        None => (prev.to_string(), vec![]),
+    };
+    let start = match head.strip_prefix("position fen ") {
+        Some(f) => Pos::from_fen(f).expect("previous position command had a readable FEN"),
+        None => Pos::startpos(),
+    };
+    let mut keep = moves.clone();
+    let mut extend = false;
+    let mut replace_last = false;
+    match kind % 5 {
+        0 if !moves.is_empty() => keep.truncate(moves.len() - 1 - (n as usize % moves.len())),
+        0 | 1 => extend = true,
+        2 => {}
+        3 => keep.clear(),
+        _ => {
+            if moves.is_empty() {
+                extend = true;
+            } else {
+                keep.pop();
+                replace_last = true;
+            }
+        }
+    }
+    let mut p = start;
+    for t in keep.iter() {
+        let legal = p.legal();
+        let (_, nx) = legal.iter().find(|(m, _)| m.lan() == *t).unwrap_or_else(|| panic!("move {} of the previous command is not legal in {}", t, p.fen())).clone();
+        p = nx;
+    }
+    let mut out = keep;
+    if replace_last {
+        let legal = p.legal();
+        let last = moves.last().unwrap();
+        let others: Vec<&(Mv, Pos)> = legal.iter().filter(|(m, _)| m.lan() != *last).collect();
+        if !others.is_empty() {
+            let (m, nx) = others[pick_index(*pk.first().unwrap_or(&0), others.len())].clone();
+            out.push(m.lan());
+            p = nx;
+        }
+    }
+    if extend {
+        let pk: Vec<u16> = if pk.is_empty() { vec![n as u16 * 257] } else { pk.to_vec() };
+        for k in pk.iter() {
+            let legal = p.legal();
+            if legal.is_empty() {
+                break;
+            }
+            let (m, nx) = gen::choose(&p, &legal, *k).clone();
+            out.push(m.lan());
+            p = nx;
+        }
+    }
+    let text = if out.is_empty() { head } else { format!("{} moves {}", head, out.join(" ")) };
+    (p, text)
 }
 
 /// the position and the UCI text of a `position` command
@@ -248,6 +315,7 @@ pub fn run_session(case: &Session, loc: &mut Local) -> Result<(), String> {
     let mut cur = Pos::startpos();
     let mut gos: Vec<GoRecord> = vec![];
     let mut isready_sent = 0usize;
+    let mut last_position_text: Option<String> = None;
     let mut search_may_run = false;
     // the running search was started by a bare go: nothing obliges it to end before the next command
     let mut running_is_bare = false;
@@ -258,7 +326,7 @@ pub fn run_session(case: &Session, loc: &mut Local) -> Result<(), String> {
     let bestmoves = |u: &Uci| u.out_lines().iter().filter(|l| l.starts_with("bestmove")).count();
 
     for step in case.steps.iter() {
-        let joining = matches!(step.cmd, Cmd::Position(_) | Cmd::GoDepth(_) | Cmd::GoMovetime(_) | Cmd::GoBare | Cmd::Stop | Cmd::NewGame);
+        let joining = matches!(step.cmd, Cmd::Position(_) | Cmd::PositionRelated(..) | Cmd::GoDepth(_) | Cmd::GoMovetime(_) | Cmd::GoBare | Cmd::Stop | Cmd::NewGame);
         // gos that must have been answered once this (joining) command has been processed
         let needed_before = gos.iter().filter(|g| g.expects_move).count();
         let log_mark = u.log.len();
@@ -306,6 +374,27 @@ pub fn run_session(case: &Session, loc: &mut Local) -> Result<(), String> {
                     }
                 }
                 cur = p;
+                last_position_text = Some(text);
+            }
+            Cmd::PositionRelated(kind, n, pk) => {
+                let (p, text) = related(last_position_text.as_deref(), *kind, *n, pk);
+                if search_may_run {
+                    interrupted_go = true;
+                }
+                u.send(&text);
+                if !gos.is_empty() {
+                    reused_memory_positions += 1;
+                }
+                loc.class(match (last_position_text.is_some(), kind % 5) {
+                    (false, _) => "related_position:no_previous_command",
+                    (_, 0) => "related_position:moves_taken_back",
+                    (_, 1) => "related_position:continued",
+                    (_, 2) => "related_position:repeated",
+                    (_, 3) => "related_position:bare_start",
+                    _ => "related_position:last_move_replaced",
+                });
+                cur = p;
+                last_position_text = Some(text);
             }
             Cmd::GoDepth(_) | Cmd::GoMovetime(_) | Cmd::GoBare => {
                 let text = match &step.cmd {
@@ -701,7 +790,8 @@ pub fn plan(ctx: &Ctx) -> Plan {
             (Box::new(ReadyDuringSearch), t.pick(24, 600)),
             (Box::new(GoEndsOnTime), t.pick(36, 900)),
         ],
-        rule: "generated sessions of 3-14 commands over {uci, isready, ucinewgame, position startpos|fen [legal moves], go \
+        rule: "generated sessions of 3-14 commands over {uci, isready, ucinewgame, position startpos|fen [legal moves], position \
+               commands derived from the previous one (moves taken back, continued, repeated, bare start, last move replaced), go \
                depth 1-4, go movetime 0-299, bare go, stop, .state} plus per-command driver timing {send next at once, wait \
                for first info, wait for bestmove, sleep 1-149 ms} and optional isready barriers, ended by quit or end of \
                input. Positions: book lines, random play, tempo-losing lines that reach book placements without castling \
